@@ -144,4 +144,21 @@ def cases(tier):
                 deadline_s=1500,
             )
         )
+    # what the observables see: fill_results hands callbacks the NORMALISED state with the dark atoms
+    # re-inserted in |g> (also when the norm is not 1, as under the non-Hermitian noisy evolution) - shared with C13
+    from harness.c13 import mps_fill_results
+
+    for nt, d, chi in ([(3, 2, 2)] if q else [(3, 2, 2), (4, 2, 2), (3, 3, 1)]):
+        out.append(
+            Case(
+                f"mps_fill_results_N{nt}_d{d}_chi{chi}",
+                mps_fill_results(nt, d, chi),
+                covers=[("emu_mps/mps_backend_impl.py", "MPSBackendImpl.fill_results"), ("emu_mps/utils.py", "extended_mps_factors"), ("emu_mps/utils.py", "extended_mpo_factors")],
+                bounds={"register_atoms": nt, "dim": d, "chi": chi, "masks": "all with >= 2 good atoms", "state norm": "arbitrary (symbolic, not normalised)"},
+                canaries=["dark_excited"],
+                weight=(d**nt) * 20,
+                timeout_ms=60000,
+                deadline_s=1500,
+            )
+        )
     return out
